@@ -124,6 +124,20 @@ let handle line =
   | ["partition"; c; h] -> let ((a, f), r) = x_partition_c (List.hd (unhex c)) (unhex h) in hex a ^ " " ^ string_of_bool f ^ " " ^ hex r
   | ["svnext"; k; h] -> (match x_sv_next (let rec n i = if i = 0 then O else S (n (i - 1)) in n (int_of_string k)) (unhex h) with Ok t -> "OK " ^ hex t | Err e -> "ERR " ^ string_of_err e)
   | ["svstable"; h] -> res_bool (x_sv_stable (unhex h))
+  | ["adv_github"; items] -> res_gclist (g_github (List.map unhex (split_list items)))
+  | ["adv_snyk"; items] -> res_gclist (g_snyk (List.map unhex (split_list items)))
+  | ["adv_gitlab"; tname; sep; h] ->
+      (match List.find_opt (fun (n, _) -> ocaml_string n = tname) x_native_tables with
+       | None -> "NOTABLE"
+       | Some (_, t) -> res_gclist (g_gitlab t (List.hd (unhex sep)) (unhex h)))
+  | ["split_req"; tname; dflt; strip; h] ->
+      let t = (match tname with
+               | "github" -> x_github_table | "snyk" -> x_snyk_table
+               | _ -> (match List.find_opt (fun (n, _) -> ocaml_string n = tname) x_native_tables with Some (_, t) -> t | None -> failwith "notable")) in
+      let d = if dflt = "-" then None else Some (cop_of_string dflt) in
+      (match x_split_req t d (unhex strip) (unhex h) with
+       | Ok (c, v) -> "OK " ^ (match c with Some o -> string_of_cop o | None -> "None") ^ " " ^ hex v
+       | Err e -> "ERR " ^ string_of_err e)
   | ["schemes"] -> Stdlib.String.concat "," (List.map ocaml_string xs_names)
   | ["vvalid"; sc; h] -> (match xs_find (coq_string sc) with None -> "NOSCHEME" | Some s -> res_bool (xs_valid s (unhex h)))
   | ["vctor"; sc; h] -> (match xs_find (coq_string sc) with None -> "NOSCHEME" | Some s ->
